@@ -28,9 +28,14 @@ pub struct Honest {
 }
 
 pub fn make_honest(suite: Suite, seed: u64, l: usize, m: usize) -> Result<Honest, String> {
+    make_honest_with(suite, seed, l, m, 2, 2)
+}
+
+/// `hk`, `pk_`: 0 = absent, 1 = empty, 2 = bytes (header / presentation header)
+pub fn make_honest_with(suite: Suite, seed: u64, l: usize, m: usize, hk: u64, pk_: u64) -> Result<Honest, String> {
     let (sk, pk) = api::keygen(suite, &bytes_for(seed, b"ikm", 0, 40), None, None)?;
-    let header = Some(bytes_for(seed, b"hdr", 0, 7));
-    let ph = Some(bytes_for(seed, b"ph", 0, 9));
+    let header = match hk { 0 => None, 1 => Some(vec![]), _ => Some(bytes_for(seed, b"hdr", 0, 7)) };
+    let ph = match pk_ { 0 => None, 1 => Some(vec![]), _ => Some(bytes_for(seed, b"ph", 0, 9)) };
     let msgs: Vec<Bytes> = (0..l).map(|i| bytes_for(seed, b"m", i as u64, 5 + i)).collect();
     let committed: Vec<Bytes> = (0..m).map(|i| bytes_for(seed, b"cm", i as u64, 6 + i)).collect();
     let sig = api::sign(suite, &sk, &pk, &header, &Some(msgs.clone()))?;
